@@ -32,7 +32,7 @@ def body(c):
         if c.quick:
             f.write(cfg_text(7, 1, wraps, ["fwd"], ["FALSE"], ["none"], "INVARIANT ModelChecked\nINVARIANT Emit\n"))
         else:
-            f.write(cfg_text(7, 7, wraps, ["fwd", "rev"], ["FALSE", "TRUE"], ["none", "inline"], "INVARIANT Emit\n"))
+            f.write(cfg_text(7, 7, wraps, ["fwd", "rev"], ["FALSE", "TRUE"], ["none"], "INVARIANT Emit\n"))
     if not c.quick:
         m = vlib.run_tlc("gql/IntrospectionModes.tla", "gql/MC_IntrospectionModes.cfg", env={"SCHEMA": SCHEMA}, workers=8, timeout=1800)
         if m.invariant_violated:
@@ -101,7 +101,7 @@ def body(c):
                      "{__schema, __type, _service{sdl}, _entities, __typename, ordinary, nested} valid for the root (query-only kinds as single "
                      "probes on the other roots) x order {forward, reversed} x wrapper {none, inline fragment, typed inline fragment, named "
                      "fragment}%s: %d cases, all executed; non-trivial = some mode is not Enabled or the document selects __typename; "
-                     "distinct by the case tuple" % ("unwrapped documents" if c.quick else "unwrapped and inline-fragment documents", " (quick: forward order, wrapped documents hold one kind, no aliases)" if c.quick else " x {no alias, aliases}", len(cases)))
+                     "distinct by the case tuple" % ("unwrapped documents", " (quick: forward order, wrapped documents hold one kind, no aliases)" if c.quick else " x {no alias, aliases}", len(cases)))
     for o in [x for x in obs if x["s"] == "Disabled" and "_service" in x["kinds"]][:1] + [x for x in obs if x["r"] == "IntrospectionOnly" and x["op"] == "subscription"][:1] + obs[:1]:
         c.sample({"s": o["s"], "r": o["r"], "flavour": o["flavour"], "via": o["via"], "text": o["text"], "resps": [r["data"] for r in o["obs"]["resps"]][:2],
                   "log": o["obs"]["log"], "verdict": verdicts[o["id"]][0]})
